@@ -12,6 +12,7 @@ import Driver.Iface
 import Driver.Socks
 import Driver.Bpf
 import Driver.Limiter
+import Driver.HttpProbe
 
 /-!
 Line-protocol driver: one case per input line, `tag \t fields… \t observed`, one answer per line,
@@ -33,6 +34,7 @@ def dispatch (line : String) : String :=
   | "iface" :: rest => (handleIface rest).getD "BAD-CASE\t0"
   | "bpfr" :: rest => (handleBpfr rest).getD "BAD-CASE\t0"
   | "c03" :: rest => (handleC03 rest).getD "BAD-CASE\t0"
+  | "httpprobe" :: rest => (handleHttpProbe rest).getD "BAD-CASE\t0"
   | "pports" :: rest => (handlePPorts rest).getD "BAD-CASE\t0"
   | "prate" :: rest => (handlePRate rest).getD "BAD-CASE\t0"
   | "ppayload" :: rest => (handlePPayload rest).getD "BAD-CASE\t0"
